@@ -122,3 +122,70 @@ def wide_targeted():
                         ch[c] |= 1 << 7
                     out.append(ch)
     return out
+
+
+BIG_P = 70
+
+
+def big_graphs():
+    """[(name, ch, und)] on 70 nodes whose edges sit on node indices >= 64, where a fixed-width integer bitmask, a uint8 counter
+    or a 64-bit shift in an implementation would overflow; few edges, so that the brute-force oracles stay cheap."""
+    p = BIG_P
+
+    def mk(directed, undirected=()):
+        ch, und = [0] * p, [0] * p
+        for a, b in directed:
+            ch[a] |= 1 << b
+        for a, b in undirected:
+            und[a] |= 1 << b
+            und[b] |= 1 << a
+        return ch, und
+    out = []
+    out.append(("collider-high",) + mk([(3, 66), (65, 66), (68, 66), (66, 69), (2, 64)]))
+    out.append(("chain-high",) + mk([(63, 64), (64, 65), (65, 66), (66, 67)]))
+    out.append(("chain-high-reversed",) + mk([(67, 66), (66, 65), (65, 64), (64, 63)]))
+    out.append(("fork-high",) + mk([(66, 1), (66, 65), (66, 69), (65, 69)]))
+    out.append(("pdag-high",) + mk([(3, 66), (65, 66)], [(66, 69), (64, 67), (67, 1)]))
+    out.append(("undirected-path-high",) + mk([], [(63, 64), (64, 65), (65, 66)]))
+    out.append(("pdag-no-extension-high",) + mk([], [(64, 65), (65, 66), (66, 67), (67, 64)]))
+    return out
+
+
+def big_codes(kind="pdag"):
+    return [G.encode(BIG_P, ch, und) for _, ch, und in big_graphs() if kind == "pdag" or not any(und)]
+
+
+WPDAG_LABS = ("rowcancel", "colcancel", "tinyw")
+
+
+def weighted_pdag(p, ch, und, lab):
+    """The same PDAG as a float weight matrix (an edge is an entry != 0; undirected = both entries non-zero).
+    rowcancel: the weights of the directed edges leaving a node sum to 0 (when it has >= 2); colcancel: those entering a node;
+    tinyw: magnitudes down to a subnormal. Undirected edges carry -1.5 / 0.5 (asymmetric values, symmetric pattern)."""
+    M = np.zeros((p, p))
+    for i in range(p):
+        for j in G.bits(und[i]):
+            M[i, j] = -1.5 if i < j else 0.5
+    e = 0
+    for i in range(p):
+        outs = G.bits(ch[i]) if lab == "rowcancel" else [j for j in range(p) if ch[j] >> i & 1] if lab == "colcancel" else G.bits(ch[i])
+        k = len(outs)
+        for t, j in enumerate(outs):
+            if lab == "tinyw":
+                w = (1e-13, -1e-15, 1e-200, -3e-310)[e % 4]
+            elif k == 1:
+                w = -1.0
+            elif k % 2 == 0:
+                w = 1.0 if t % 2 == 0 else -1.0
+            else:
+                w = (1.0, 1.0, -2.0)[t] if t < 3 else (1.0 if t % 2 == 1 else -1.0)
+            if lab == "colcancel":
+                M[j, i] = w
+            else:
+                M[i, j] = w
+            e += 1
+    return M
+
+
+def pdag_any(p, ch, und, lab="pdag"):
+    return pdag_matrix(p, ch, und) if lab == "pdag" else weighted_pdag(p, ch, und, lab)
